@@ -29,6 +29,7 @@ class TLCResult:
         self.distinct = 0
         self.depth = 0
         self.exports = []          # decoded JSON values printed by the spec
+        self.exported = None       # with export_sample: how many values the spec printed (exports holds a sample)
         self.violation = None      # name of violated invariant / property / "deadlock" / "assert"
         self.raw = ""
         self.wall = 0.0
@@ -78,7 +79,7 @@ def run(module, *, constants=None, defs=None, init="Init", next="Next", spec=Non
         invariants=(), properties=(), constraints=(), action_constraints=(),
         postcondition=None, view=None, deadlock=False, workers=16, timeout=900,
         simulate=None, depth=None, seed=None, env=None, coverage=False,
-        extends_extra=(), extra_text="", keep=None, depth_first=False, heap="8g"):
+        extends_extra=(), extra_text="", keep=None, depth_first=False, heap="8g", export_sample=None):
     """Model-check `module` (a file in spec/) with a generated MC wrapper.
 
     constants: {name: python value} written literally into the cfg.
@@ -166,7 +167,7 @@ def run(module, *, constants=None, defs=None, init="Init", next="Next", spec=Non
         except subprocess.TimeoutExpired as ex:
             subprocess.run(["pkill", "-f", scratch], check=False)
             raise TLCError("TLC timed out after %ss on %s" % (timeout, module)) from ex
-        res = parse(p.stdout)
+        res = parse(p.stdout, export_sample)
         res.wall = time.time() - t0
         res.returncode = p.returncode
         if keep:
@@ -189,16 +190,48 @@ _COV = re.compile(r"^<(\w+) line \d+, col \d+ to line \d+, col \d+ of module (\w
 _PROP = re.compile(r"Error: (?:Action|Temporal) propert(?:y|ies) (\S+)? ?(?:was|were|is) violated")
 
 
-def parse(out):
+def _lines(text):
+    """the lines of `text` one at a time (str.splitlines would hold a second copy of hundreds of megabytes)"""
+    i, n = 0, len(text)
+    while i < n:
+        j = text.find("\n", i)
+        if j < 0:
+            j = n
+        yield text[i:j].rstrip("\r")
+        i = j + 1
+
+
+def parse(out, export_sample=None):
+    """export_sample = (n, seed[, substring]): keep a uniform random sample of n exported values (those whose text
+    contains `substring`, if given) instead of all of them - a thorough-tier run of Train.tla exports millions of
+    behaviours, which decoded take tens of gigabytes; res.exported counts all of them."""
     res = TLCResult()
-    res.raw = out
-    for line in out.splitlines():
+    kept = []                      # everything TLC said except the exported JSON values (kept decoded in res.exports)
+    rnd = None
+    if export_sample:
+        import random as _random
+        rnd = _random.Random(export_sample[1])
+    pool, seen = [], 0
+    for line in _lines(out):
         if line.startswith('"') and len(line) > 2 and line[1] in "{[":
-            try:
-                res.exports.append(json.loads(json.loads(line)))
+            if rnd is None:
+                try:
+                    res.exports.append(json.loads(json.loads(line)))
+                    continue
+                except ValueError:
+                    pass
+            else:
+                if len(export_sample) > 2 and export_sample[2] not in line:
+                    continue
+                seen += 1                           # reservoir sampling over the undecoded lines
+                if len(pool) < export_sample[0]:
+                    pool.append(line)
+                else:
+                    j = rnd.randrange(seen)
+                    if j < export_sample[0]:
+                        pool[j] = line
                 continue
-            except ValueError:
-                pass
+        kept.append(line)
         if line.startswith("The coverage statistics at"):
             res.coverage = {}          # TLC reprints the table periodically: the last one is complete
             continue
@@ -224,8 +257,16 @@ def parse(out):
             res.violation = res.violation or "assert"
         elif "Error: Postcondition" in line or "is violated by the initial state" in line:
             res.violation = res.violation or line.strip()
-    if "Overflow when computing" in out:
-        raise TLCError("TLC integer overflow:\n" + "\n".join(out.splitlines()[-30:]))
+    if rnd is not None:
+        for line in pool:
+            try:
+                res.exports.append(json.loads(json.loads(line)))
+            except ValueError:
+                kept.append(line)
+        res.exported = seen
+    res.raw = "\n".join(kept)
+    if "Overflow when computing" in res.raw:
+        raise TLCError("TLC integer overflow:\n" + "\n".join(kept[-30:]))
     return res
 
 
